@@ -97,6 +97,18 @@ def parse_shim(path: Path, root: str):
     return out
 
 
+class DirMap(dict):
+    """Directory -> 1 (original) / 2 (new), insensitive to trailing slashes and the like."""
+
+    def __init__(self, d):
+        super().__init__({os.path.normpath(k): v for k, v in d.items()})
+
+    def get(self, key, default=None):
+        if not key:
+            return default
+        return super().get(os.path.normpath(str(key)), default)
+
+
 def read_events(path: Path):
     if not path.exists():
         return []
@@ -374,8 +386,10 @@ def run_scenario(sc: dict, workdir: Path):
     base = workdir / re.sub(r"[^A-Za-z0-9_.-]", "_", sc["name"])
     base.mkdir(parents=True, exist_ok=True)
     A, B = str(base / "ckptA"), str(base / "ckptB")
+    if sc.get("dirstyle") == "space_slash":
+        A, B = str(base / "ckpt A dir") + "/", str(base / "ckpt B dir") + "//"
     sc = dict(sc)
-    sc["dirs"] = {A: 1, B: 2}
+    sc["dirs"] = DirMap({A: 1, B: 2})
     gens_out = []
     kw = dict(sc["solver_kw"])
     if sc["freq"] > 0 or sc.get("always_ckpt_args"):
@@ -415,7 +429,7 @@ def run_scenario(sc: dict, workdir: Path):
         if g.get("check_unchanged_A"):
             # tree of the original directory must be byte-identical to what it was before this generation
             for ev in events:
-                if ev["event"] == "x_listing" and ev["dir"] == A:
+                if ev["event"] == "x_listing" and os.path.normpath(ev["dir"]) == os.path.normpath(A):
                     ev["unchanged"] = (tree_digest(A) == prev_digest)
         prev_digest = tree_digest(A)
         if killed and gi == len(sc["gens"]) - 1:
